@@ -380,6 +380,27 @@ theorem inBase_preserves_SI (S : USys K) (u v : UnitV K) (x y : K) (hD : T.hasDi
           simpa using hz
         grind
 
+omit laws in
+/-- **the in-place variant agrees**: `convert_to_base` (= `convert_to_units(get_base_equivalent)`)
+    yields the same numbers and the same unit as `in_base`, or the same refusal (dimensions outside
+    the EM table) -/
+theorem convertToBase_eq_inBase (S : USys K) (u : UnitV K) (x : K) (hD : T.hasDim u.dim = false) :
+    convertToBase pre t T S (x, u) = inBase pre t T S u x := by
+  have hc : checkEm pre t T S u = .ok none := by simp [checkEm, hD]
+  simp only [convertToBase, inBase, hc]
+  cases hg : getBaseEquivalent pre t T S u with
+  | error e => rfl
+  | ok target =>
+    have hto : checkEmTo pre t T u target = .ok none := by simp [checkEmTo, hD]
+    simp only [convertToUnitsEm, hto, convertToUnits]
+    cases hf : getConversionFactor pre t u target with
+    | error e => rfl
+    | ok f =>
+      obtain ⟨r, o⟩ := f
+      cases o with
+      | none => rfl
+      | some v => simp only [applyFactor]
+
 /-- **in_base stays inside the system** (non-EM dimensions, well-formed system): the result has
     the dimension of the input and every symbol of its unit is owned by the system -/
 theorem inBase_inside (S : USys K) (hS : WF P pre t S) (u v : UnitV K) (x y : K) (hD : T.hasDim u.dim = false)
